@@ -15,85 +15,14 @@ def prop(pid, level, rule, assumptions, units, exhaustive_core=False, text="", n
 PENDING = {}
 
 
-prop("C14", "exploration",
-     "rapid draws histories of 1..3000 counter probes (<2^63): absolute edge counters, top±delta, last±delta, revisits; each "
-     "probe is check-and-mark or check-only; plus every check-and-mark history of length<=3 over a 40-value edge alphabet "
-     "followed by re-probes (exhaustive sub-space). Oracle: set+max model from the statement, compared at every step. "
-     "Non-trivial = history that contains a probe of an already accepted counter AND a forward jump into another 64-block "
-     "(random part), or any enumerated history; distinct by hash of the whole history.",
-     ["counters stay below 2^63 as the property states", "Mark is only called after a successful Check (as readPacketLocked does)"],
-     [dict(name="rapid", pkg="transport", run="^TestVerifC14Random$", shards=dict(quick=8, thorough=16), thorough_scale=100),
-      dict(name="enum", pkg="transport", run="^TestVerifC14Exhaustive$", shards=dict(quick=4, thorough=4))],
-     exhaustive_core=True,
-     text="Model-based search: the real SlidingWindow is compared step by step with a set+max model over generated histories "
-          "(edge-biased, up to 3000 probes) and over an exhaustively enumerated short-history sub-space. Absence is not shown; "
-          "a counter-example would need a history shape outside the generated families.",
-     note="trusts the set+max model (10 lines, written from the statement) and rapid; counters < 2^63",
-     technique="property-based testing (rapid) against a reference model + bounded exhaustive enumeration",
-     design="DESIGN.md section 4, C14")
+def _load():
+    import glob, importlib.util, os, sys
+    sys.modules.setdefault("props", sys.modules[__name__])
+    d = os.path.join(os.path.dirname(os.path.abspath(__file__)), "propdefs")
+    for f in sorted(glob.glob(os.path.join(d, "C*.py"))):
+        spec = importlib.util.spec_from_file_location("propdefs_" + os.path.basename(f)[:-3], f)
+        m = importlib.util.module_from_spec(spec)
+        spec.loader.exec_module(m)
 
-prop("C20", "exploration",
-     "exhaustive: every pattern over {a,b,*} of length 0..6 x every input over {a,b} of length 0..7 (thorough: 0..8 / 0..9); "
-     "random pairs over {a,b,c,.,-,*} up to length 40, half built by instantiating the pattern's stars and then perturbed; "
-     "host-block lists and vhost lists over the same pattern space. Oracle: dynamic-programming glob reference (star = any "
-     "string, everything else literal), cross-checked against path.Match at start-up; MatchHost must merge exactly the "
-     "matching blocks in order, VirtualHosts.Match must return the first matching entry. Non-trivial = pattern with both a "
-     "star and a literal, or empty input with a non-empty pattern; distinct by (pattern,input) / list hash.",
-     ["matching is byte-wise, case-sensitive (as the package documents by its commented-out fold option)"],
-     [dict(name="glob", pkg="pkg/glob", run="^TestVerifC20", shards=dict(quick=8, thorough=16), thorough_scale=20),
-      dict(name="config", pkg="config", run="^TestVerifC20", shards=dict(quick=2, thorough=8), thorough_scale=20),
-      dict(name="hopserver", pkg="hopserver", run="^TestVerifC20", shards=dict(quick=2, thorough=8), thorough_scale=20)],
-     exhaustive_core=True,
-     text="The real Glob is compared with a dynamic-programming reference on every pattern/input pair of a small alphabet up to "
-          "length 6/7 (exhaustive) and on random longer pairs built to match or nearly match; MatchHost and VirtualHosts.Match "
-          "are compared with the reference applied to generated block / vhost lists. Panics are caught and reported.",
-     note="trusts the DP reference (cross-checked against path.Match at start-up) and rapid",
-     technique="property-based testing (rapid) + exhaustive small-alphabet enumeration against a reference matcher",
-     design="DESIGN.md section 4, C20")
 
-prop("C13", "exploration",
-     "rapid draws programs: initialisation (InitializeEmpty / Initialize with key 1..135 bytes, id filling up to the 136-byte "
-     "limit, counter 0..300 bytes; empty key = hash mode) followed by 1..40 operations allowed by the mode's contract with operand "
-     "lengths biased to {0,1,135,136,137,271,272,273,408,1000}; at a drawn point the object is cloned and the clone plays the peer "
-     "(decrypts what the original encrypts and vice versa, otherwise the same calls). Oracle: every output equals an independent "
-     "Cyclist reference (Xoodyak-spec style, byte-array Keccak-p[1600,12]) anchored to the repository's XKCP transcript and to "
-     "stdlib SHA3-256; peer outputs equal; in-place equals out-of-place. Plus every operand length 0..410 for each operation "
-     "(exhaustive sub-space). Run on the assembly permutation and on the generic one (-tags appengine). Non-trivial = program with "
-     "an empty or >=136-byte operand, or >=3 operations of >=2 kinds; distinct by hash of the program.",
-     ["operations documented to panic in the wrong mode are not called", "len(key)+len(id)+1 <= 136 (the documented absorbKey buffer)",
-      "the reference implementation is mine; its anchors are cyclist/testdata/xkcp.txt and crypto/sha3"],
-     [dict(name="asm", pkg="cyclist", run="^TestVerifC13", shards=dict(quick=8, thorough=16), thorough_scale=100),
-      dict(name="generic", pkg="cyclist", tags=("appengine",), run="^TestVerifC13", shards=dict(quick=8, thorough=16), thorough_scale=100)],
-     exhaustive_core=True,
-     text="Differential search: generated duplex programs are run on the real Cyclist (both permutation builds) and on an independent "
-          "reference written from the specification and anchored to published vectors; every output, and the synchrony of a cloned "
-          "peer, is compared. Single-operation programs are enumerated for every operand length across three rate blocks.",
-     note="trusts the reference (anchored to XKCP transcript + SHA3-256 of the standard library) and rapid",
-     technique="property-based differential testing (rapid) against an independent reference + bounded enumeration",
-     design="DESIGN.md section 4, C13")
-
-prop("C12", "exploration",
-     "rapid draws sessions: key length 1..199 (every length, edge-biased) and key bytes; 1..6 messages sealed by one instance and "
-     "opened by another, plaintext/associated-data lengths from {0,1,7,8,31,32,33,199,200,201,399,...,1601} and random, 5% up to "
-     "66000 bytes; each message in a drawn buffer layout (dst nil / in place / appended into a live buffer / ad and plaintext "
-     "sharing a backing array); up to 8 tampered variants per session (bit flip in body, tag or ad; truncation; extension), each "
-     "presented to a clone of the opener's state. Oracles: Open(Seal(P,A),A)=P; ciphertext and tag byte-equal to an independent "
-     "Farfalle/Kravatte-SANSE reference (whole-message, byte-array Keccak-p[1600,6], anchored to the repository's XKCP vectors and "
-     "SHA3-256); every tampered variant rejected; caller buffers outside the result untouched. Exhaustive sub-spaces: all 19900 "
-     "(key length, key byte) pairs must change the output; every single-bit flip of tag, body and ad for 16 short shapes. Raw deck "
-     "function: arbitrary chunking of inputs/outputs equals the reference. Non-trivial = crosses a 200-byte block, or key length "
-     "!= 16, or multi-message session, or aliased layout; distinct by case hash.",
-     ["key lengths 1..199 as the property states (0 and >=200 are rejected / out of contract)",
-      "dst overlaps plaintext exactly or not at all (cipher.AEAD contract); associated data never overlaps dst",
-      "the reference implementation is mine; its anchors are kravatte/testdata/xkcp.txt, xkcp-sanse.txt and crypto/sha3"],
-     [dict(name="sessions", pkg="kravatte", run="^TestVerifC12(Sessions|Deck)$", shards=dict(quick=12, thorough=16), thorough_scale=50),
-      dict(name="sweeps", pkg="kravatte", run="^TestVerifC12(TamperSweep|KeySweep)$", shards=dict(quick=8, thorough=8))],
-     exhaustive_core=True,
-     text="Differential and metamorphic search: generated SANSE sessions run on the real AEAD and on an independent reference "
-          "anchored to published vectors; round trip, byte equality with the reference, rejection of every tampered variant and "
-          "buffer hygiene are checked per message. Key-byte sensitivity is enumerated exhaustively for all key lengths; bit-flip "
-          "rejection exhaustively for short shapes.",
-     note="trusts the reference (anchored to XKCP vectors + SHA3-256 of the standard library), rapid; assembly permutation only "
-          "(the tree has no pure-Go 6-round permutation)",
-     technique="property-based differential + metamorphic testing (rapid) with exhaustive key-byte and bit-flip sweeps",
-     design="DESIGN.md section 4, C12")
+_load()
